@@ -490,6 +490,7 @@ def agree(run, fx, rule='PLANEROUTE'):
     zero_alloc = lambda it, f, e, obj, args: O.It(O.Vec([0] * it.rv(args[0])), 0)
     cases, prob = 0, None
     chkcases, chkprob = 0, None
+    dcases, dprob = 0, None
     f4, f12 = fn_of(fills[4][0]), fn_of(fills[12][0])
     try:
         bmp_sets = [sg for sg in segsets(2, 0, 6)]
@@ -574,6 +575,24 @@ def agree(run, fx, rule='PLANEROUTE'):
                         if a_ != b_:
                             prob = '%s: U+%04X maps to glyph %r through the cached cmap and to %r through the direct one' % (desc, c_, a_, b_)
                             break
+                    if not prob and k % 7 == 0 and dcases < 24:
+                        # ... and the destructor gives back every block the constructor made, each once, and the block table itself
+                        dts = fx.fns_named('graphite2::CachedCmap::~CachedCmap')
+                        if dts:
+                            freed = []
+                            natd = dict(nat)
+                            natd['free'] = lambda it_, f_, e_, o_, a_, freed=freed: freed.append(it_.rv(a_[0]))
+                            blk = cc[CC + 'm_blocks']
+                            made = [x for x in blk.vec.items if isinstance(x, O.It)]
+                            itx = O.Interp(fx, natives=natd)
+                            itx.MAX_STEPS = 200000
+                            itx.call(dts[0], cc, [])
+                            dcases += 1
+                            fv = [f_.vec for f_ in freed if isinstance(f_, O.It)]
+                            lost = [k_ for k_, x in enumerate(blk.vec.items) if isinstance(x, O.It) and sum(1 for v_ in fv if v_ is x.vec) != 1]
+                            if lost or sum(1 for v_ in fv if v_ is blk.vec) != 1:
+                                dprob = ('%s: ~CachedCmap frees %s' % (desc, ('block(s) %s of the %d the constructor allocated %s' % (['%#x' % k_ for k_ in lost[:4]], len(made),
+                                         'not exactly once (code points U+%04X00.. stay allocated after gr_face_destroy)' % lost[0])) if lost else 'the block table itself not exactly once'))
                 except O.Violation as v:
                     prob = '%s: %s (%s)' % (desc, v.what, v.loc)
                 if prob:
@@ -583,6 +602,10 @@ def agree(run, fx, rule='PLANEROUTE'):
     except AnalysisBroken as ex:
         run.broken(rule, 'cached and direct lookups agree', str(ex), ctor.where())
         return
+    if dprob:
+        run.violated('CMAPBOUND', 'the cached cmap\'s destructor frees every block its constructor made', ctor.where(), dprob)
+    elif dcases:
+        run.held('CMAPBOUND', 'the cached cmap\'s destructor frees every block its constructor made', ctor.where(), '%d constructed caches destroyed (interpreted)' % dcases)
     if chkprob:
         run.violated(rule, 'well-formed sub-tables pass their gate', fx.one('graphite2::TtfUtil::CheckCmapSubtable12').where(), chkprob)
     elif chkcases >= 20:
